@@ -384,6 +384,11 @@ class InterpolatableFunction(ABC):
                     case EExtrapolationType.FUNCTION:
                         res[xUpper] = self.evaluateInterpolation(x[xUpper])
 
+            ## Points inside the table (finite-difference stencils can straddle the edge)
+            xInside = ~(xLower | xUpper)
+            if np.any(xInside):
+                res[xInside] = self.evaluateInterpolation(x[xInside])
+
         return res
 
     def __call__(self, x: inputType, bUseInterpolatedValues: bool = True) -> outputType:
@@ -524,7 +529,11 @@ class InterpolatableFunction(ABC):
         ## type the function uses
         if xEvaluateRegion.size > 0:
             results[needsEvaluationCondition] = helpers.derivative(
-                self._evaluateOutOfBounds, x, n=order, epsilon=epsilon, scale=scale
+                self._evaluateOutOfBounds,
+                xEvaluateRegion,
+                n=order,
+                epsilon=epsilon,
+                scale=scale,
             )
 
         return results
